@@ -26,8 +26,11 @@ package server
 
 import (
 	"fmt"
+	"github.com/bio-routing/bio-rd/net/tcp"
+	"net"
 	"strings"
 	"testing"
+	"time"
 
 	bnet "github.com/bio-routing/bio-rd/net"
 	"github.com/bio-routing/bio-rd/protocols/bgp/types"
@@ -346,3 +349,125 @@ func TestVerifC36ServerReplaceChains(t *testing.T) {
 		}
 	})
 }
+
+// TestVerifC36ReplaceWhileConnecting: a policy-only reload replaces the chains of a neighbour (real
+// bgpServer.Replace{Import,Export}FilterChain) while that neighbour opens another connection (real
+// incomingConnectionWorker, connection handed over through the listener manager's accept channel). The harness
+// owns the schedule: it keeps the existing session busy (holds its state lock, as the session's own goroutine does
+// during RIB set-up and teardown) so that the replacement is parked in the middle, lets the connection in, and
+// releases. Afterwards every session of the neighbour, old or new, and any later one must carry the new chains.
+func TestVerifC36ReplaceWhileConnecting(t *testing.T) {
+	rec := kit.NewRecorder(t, "C36", "real started bgpServer, passive neighbour with generated chains and one existing session (OpenSent or Established); Replace{Import,Export}FilterChain with new generated chains parked on the busy existing session while 1-2 further connections of the neighbour arrive; chains of all sessions compared by behaviour on 12 probe routes with the new chains. Non-trivial: the new chains behave differently from the old ones and a connection arrived while the replacement was parked.")
+	var inc c21Inc
+	rapid.Check(t, func(t *rapid.T) {
+		c := rec.Case()
+		defer c.Done()
+		impA, dA := c36SrvGenChain(t, "impA")
+		expA, _ := c36SrvGenChain(t, "expA")
+		impB, dB := c36SrvGenChain(t, "impB")
+		expB, _ := c36SrvGenChain(t, "expB")
+		establish := rapid.Bool().Draw(t, "established")
+		nconn := rapid.IntRange(1, 2).Draw(t, "connections")
+		c.Logf("import %s -> %s; first session established=%v; %d connection(s) during the replacement", dA, dB, establish, nconn)
+		var verdict string
+		differ := c36SrvBehaviour(filterOrDefault(impA)) != c36SrvBehaviour(filterOrDefault(impB)) || c36SrvBehaviour(filterOrDefault(expA)) != c36SrvBehaviour(filterOrDefault(expB))
+		ok := inc.c21Run(c, func() {
+			r := c00NewRig(0x0a000001)
+			c36PeerSeq++
+			ip := bnet.IPv4FromOctets(10, 7, uint8(c36PeerSeq>>8), uint8(c36PeerSeq))
+			cfg := r.c00PeerCfg(ip, bnet.IPv4FromOctets(10, 0, 0, 1), 65000, 65001)
+			cfg.IPv4.ImportFilterChain, cfg.IPv4.ExportFilterChain = impA, expA
+			if err := r.srv.AddPeer(cfg); err != nil {
+				panic(err)
+			}
+			conn1, f1 := r.c00Connect(ip)
+			if establish {
+				if ok, s := r.c00Establish(conn1, f1, c00Open(65001, 0x0a000002, 90, kit.CapASN4(65001))); !ok {
+					panic(c00Inconclusive{"first session did not establish: " + s})
+				}
+				c00Barrier(conn1, f1)
+			}
+			defer func() { go r.srv.DisposePeer(r.vrf, ip.Dedup()) }()
+			f1.stateMu.Lock()
+			locked := true
+			unlock := func() {
+				if locked {
+					locked = false
+					f1.stateMu.Unlock()
+				}
+			}
+			defer unlock()
+			repDone := make(chan error, 1)
+			go func() {
+				if e := r.srv.ReplaceImportFilterChain(r.vrf, ip.Dedup(), impB); e != nil {
+					repDone <- e
+					return
+				}
+				repDone <- r.srv.ReplaceExportFilterChain(r.vrf, ip.Dedup(), expB)
+			}()
+			time.Sleep(2 * time.Millisecond) // (sensitivity only) let the replacement reach the busy session
+			// the accept loop is one goroutine: the second connection is taken once the first has its session
+			accepted := make(chan bool, 1)
+			go func() {
+				for k := 0; k < nconn; k++ {
+					cn := kit.NewConn(&net.TCPAddr{IP: net.IPv4(127, 0, 0, 1), Port: 179}, &net.TCPAddr{IP: ip.ToNetIP(), Port: 40000 + k})
+					select {
+					case r.lm.ch <- tcp.ConnWithVRF{Conn: cn, VRF: r.vrf}:
+					case <-time.After(c00Deadline):
+						accepted <- false
+						return
+					}
+				}
+				accepted <- true
+			}()
+			time.Sleep(2 * time.Millisecond)
+			unlock()
+			if !<-accepted {
+				panic(c00Inconclusive{"server did not accept the connection"})
+			}
+			select {
+			case e := <-repDone:
+				if e != nil {
+					verdict = "Replace{Import,Export}FilterChain failed: " + e.Error()
+					return
+				}
+			case <-time.After(c00Deadline):
+				panic(c00Inconclusive{"replacement did not return"})
+			}
+			c00WaitFor("sessions of the new connections registered", func() bool { return len(r.c00FSMs(ip)) >= 1+nconn })
+			wantImp, wantExp := c36SrvBehaviour(filterOrDefault(impB)), c36SrvBehaviour(filterOrDefault(expB))
+			p := r.c00Peer(ip)
+			fsms := append(r.c00FSMs(ip), newFSM(p))
+			for k, f := range fsms {
+				f.stateMu.RLock()
+				gi, ge := c36SrvBehaviour(f.ipv4Unicast.importFilterChain), c36SrvBehaviour(f.ipv4Unicast.exportFilterChain)
+				f.stateMu.RUnlock()
+				who := fmt.Sprintf("session %d of %d", k, len(fsms)-1)
+				if k == len(fsms)-1 {
+					who = "a session created after the replacement"
+				}
+				if gi != wantImp {
+					verdict = fmt.Sprintf("%s still uses an import policy that is not the new one:\n    %s\n  new policy:\n    %s", who, gi, wantImp)
+					return
+				}
+				if ge != wantExp {
+					verdict = fmt.Sprintf("%s still uses an export policy that is not the new one:\n    %s\n  new policy:\n    %s", who, ge, wantExp)
+					return
+				}
+			}
+		})
+		if !ok {
+			c.Logf("inconclusive: %s", inc.last)
+			return
+		}
+		c.NonTrivialIf(differ)
+		c.ClassIf(differ, "chains_differ")
+		c.ClassIf(establish, "first_session_established")
+		if verdict != "" {
+			t.Fatalf("C36/replace-while-connecting: %s\n%s", verdict, c.String())
+		}
+	})
+	inc.c21Finish(t, "C36")
+}
+
+var c36PeerSeq uint32
